@@ -1,6 +1,6 @@
 (* C11 — every persisted product reads back equal to what was written.
    Statements only; proofs are in Proofs/CodecP.v (models in Model/Codec.v). *)
-From Verif Require Import Prelude Codec CodecP.
+From Verif Require Import Prelude Codec CodecP PatchData PatchDataP.
 Open Scope Q_scope.
 
 (* HDF5 pair counts: to_hdf stores only the patch pairs with a non-zero count in some bin;
@@ -177,6 +177,41 @@ Print Assumptions C11_metadata_roundtrip.
 
 (* non-vacuity: a 2 x 3 x 3 array with a pair that is zero in one bin only, a member set,
    three formatted numbers, a two-bin table and a linear configuration *)
+(* ---------------- patch_N/data.bin as bytes ---------------- *)
+(* the header byte of bit flags reads back the flags it was made from *)
+Theorem C11_patchdata_header_roundtrip : forall i : info, info_of_byte (info_byte i) = i.
+Proof. exact info_roundtrip. Qed.
+Print Assumptions C11_patchdata_header_roundtrip.
+(* whatever records were written (any 64-bit patterns: NaN payloads, signed zeros, denormals alike) are read back:
+   the same flags, the same records, bit for bit, in the same order *)
+Theorem C11_patchdata_roundtrip : forall (i : info) (recs : list record),
+  forallb (rec_ok i) recs = true -> read_file (file_of i recs) = Some (i, recs).
+Proof. exact read_roundtrip. Qed.
+Print Assumptions C11_patchdata_roundtrip.
+(* a file written in any number of flushes is the file of the concatenated records (the writer only appends) *)
+Theorem C11_patchdata_flushes : forall (i : info) (chunks : list (list record)),
+  file_of i (concat chunks) = info_byte i :: concat (map body chunks).
+Proof. exact file_flushes. Qed.
+Print Assumptions C11_patchdata_flushes.
+(* a file cut at a record boundary reads back as the records before the cut - silently shorter (what C08 guards
+   with patch_ids.bin and meta.yml) ... *)
+Theorem C11_patchdata_cut_at_record_boundary : forall (i : info) (r1 r2 : list record),
+  forallb (rec_ok i) r1 = true ->
+  read_file (firstn (1 + 8 * nfields i * length r1) (file_of i (r1 ++ r2))) = Some (i, r1).
+Proof. exact truncated_at_record_boundary. Qed.
+Print Assumptions C11_patchdata_cut_at_record_boundary.
+(* ... and a cut anywhere else raises *)
+Theorem C11_patchdata_cut_inside_record_raises : forall (h : N) (rest : list N),
+  (length rest mod (8 * nfields (info_of_byte h)) <> 0)%nat -> read_file (h :: rest) = None.
+Proof. exact cut_inside_a_record_raises. Qed.
+Print Assumptions C11_patchdata_cut_inside_record_raises.
+Example C11_patchdata_concrete :
+  let i := {| has_w := true; has_z := false; has_pid := false |} in
+  let recs := [[4607182418800017408; 0; 9221120237041090561]; [13830554455654793216; 1; 9223372036854775808]]%N in
+  forallb (rec_ok i) recs = true /\ length (file_of i recs) = 49%nat /\ nth 0 (file_of i recs) 0%N = 7%N /\
+  read_file (file_of i recs) = Some (i, recs) /\ read_file (firstn 48 (file_of i recs)) = None /\
+  read_file (firstn 25 (file_of i recs)) = Some (i, firstn 1 recs).
+Proof. vm_compute. repeat split; reflexivity. Qed.
 Example C11_concrete :
   let M := [[[0; 1; 0]; [0; 0; 0]; [2; 0; 0]]; [[0; 0; 0]; [0; 0; 0]; [5; 0; 7]]] in
   map fst (sparse_enc qzero 2 3 (get3 M)) = [(0, 1); (2, 0); (2, 2)]%nat /\
